@@ -917,24 +917,24 @@ impl Xot {
         }
         // record previous and next sibling
         let previous_node = self.previous_sibling(replaced_node);
-        let next_node = self
-            .next_sibling(replaced_node)
-            .filter(|next_node| *next_node != replacing_node);
+        let next_node = self.next_sibling(replaced_node);
         // remove the replaced node, use low-level remove_tree to avoid
         // text node reconciliation and document element detection
         replaced_node.get().remove_subtree(self.arena_mut());
         // now insert the replacing node
-        if previous_node == Some(replacing_node) {
-            // the replacing node preceded the replaced node: it is in place
+        if previous_node == Some(replacing_node) || next_node == Some(replacing_node) {
+            // the replacing node was next to the replaced node: it is in place
         } else if let Some(previous_node) = previous_node {
             self.insert_after(previous_node, replacing_node)?;
         } else {
             self.prepend(parent, replacing_node)?;
         }
-        // a replacing text node consolidates with the text node before it;
-        // the result can then be adjacent to the text node that followed the
-        // replaced node, so reconcile that junction too
-        if let Some(next_node) = next_node {
+        // text nodes may have become adjacent where the replaced node was:
+        // a replacing text node consolidates with the text node before it
+        // only, and a replacing node that was already in place with nothing
+        if next_node == Some(replacing_node) {
+            self.remove_consolidate_text_nodes(previous_node, next_node);
+        } else if let Some(next_node) = next_node {
             self.remove_consolidate_text_nodes(self.previous_sibling(next_node), Some(next_node));
         }
         Ok(())
